@@ -7,7 +7,7 @@
 #ifndef NFAM
 #define NFAM 1                     /* name families (persister: data files and index files) */
 #endif
-static const char *rec_base[NFAM], *rec_suffix[NFAM];
+static const char *rec_base[NFAM], *rec_suffix[NFAM]; static int rec_sfx0[NFAM];   /* rec_sfx0: generation 0 carries the suffix too */
 static uint8_t g_ex[NFAM][NG], g_ex0[NFAM][NG]; static uint32_t g_id[NFAM][NG], g_id0[NFAM][NG];
 static int rn_calls, rn_other, rn_cross;
 /* generation number of a path within family f, or -1 */
@@ -16,11 +16,13 @@ static int gen_of(int f, const uint8_t *p)
   const char *b = rec_base[f], *sfx = rec_suffix[f]; int i = 0;
   for (; b[i]; i++) if (p[i] != (uint8_t)b[i]) return -1;
   int g = 0;
+  if (p[i] == 0 && !rec_sfx0[f]) return 0;                           /* the live file itself */
   if (p[i] == '.' && p[i + 1] >= '1' && p[i + 1] <= '9') {          /* ".<decimal without leading zero>" */
     i++;
     for (int d = 0; d < 5 && p[i] >= '0' && p[i] <= '9'; d++, i++) g = g * 10 + (p[i] - '0');
     if (p[i] >= '0' && p[i] <= '9') return -1;
   }
+  if (g == 0 && !rec_sfx0[f]) return -1;
   for (int k = 0; sfx[k]; k++, i++) if (p[i] != (uint8_t)sfx[k]) return -1;
   if (p[i] != 0) return -1;
   return g < NG ? g : -2;                                            /* -2: a generation beyond the tracked window */
